@@ -275,7 +275,7 @@ func (p *c10) cfgAt(i int) c10cfg {
 }
 
 // c10nSelf: templates that include or embed themselves a finite number of times.
-const c10nSelf = 10
+const c10nSelf = 12
 
 // buildSelf: terminating self-inclusion - a counter handed down through the with-hash (with and without only), a
 // tree rendered by a template that includes itself for every child, two templates including each other, a
@@ -287,8 +287,8 @@ func (p *c10) buildSelf(j int) (*Program, string) {
 	hash1 := func(k string, v gen.Expr) gen.Expr { return &gen.EHash{Keys: []gen.Expr{nm(k)}, Vals: []gen.Expr{v}} }
 	ctx := map[string]interface{}{"w": "ctxw"}
 	var main []gen.Node
-	kind := j % 5
-	only := j >= 5
+	kind := j % 6
+	only := j >= 6
 	switch kind {
 	case 0: // counter
 		ts["rec"] = tpl("rec", tx("R"), pr(nm("n")), tx("("), &gen.NIf{Conds: []gen.Expr{lt(nm("n"), num(0))}, Bodies: [][]gen.Node{{&gen.NInclude{Tpl: str("rec"), With: hash1("n", minus1("n")), Only: only}}}}, tx(")"), pr(nm("n")))
@@ -311,6 +311,11 @@ func (p *c10) buildSelf(j int) (*Program, string) {
 		ts["host"] = tpl("host", tx("H"), pr(nm("d")), tx("(:"), &gen.NIf{Conds: []gen.Expr{lt(nm("d"), num(0))}, Bodies: [][]gen.Node{{
 			&gen.NEmbed{Tpl: str("lay"), Blocks: []*gen.NBlock{{Name: "eb", Body: []gen.Node{tx("ov("), &gen.NInclude{Tpl: str("host"), With: hash1("d", minus1("d")), Only: only}, tx(")")}}}}}}}, tx(":)"))
 		main = []gen.Node{&gen.NInclude{Tpl: str("host"), With: hash1("d", num(2)), Only: only}}
+	case 5: // a callback renders the template again: a re-entrant Execute with a copy of everything visible
+		ts["rr"] = tpl("rr", tx("R"), pr(nm("n")), tx("("), &gen.NIf{Conds: []gen.Expr{lt(nm("n"), num(0))}, Bodies: [][]gen.Node{{&gen.NSet{Name: "n", X: minus1("n")}, &gen.NSet{Name: "mine", X: nm("n")},
+			pr(&gen.ECall{Fn: "render", Args: []gen.Expr{str("rr")}}), tx("/"), pr(nm("n")), pr(nm("mine"))}}}, tx(")"))
+		main = []gen.Node{&gen.NSet{Name: "n", X: num(3)}, pr(&gen.ECall{Fn: "render", Args: []gen.Expr{str("rr")}}), tx("|"), &gen.NInclude{Tpl: str("rr"), With: hash1("n", num(2)), Only: only}, tx("|"), pr(nm("n")), pr(nm("mine")),
+			tx("|"), pr(&gen.ECall{Fn: "render", Args: []gen.Expr{str("nosuchtemplate")}}), tx("|"), &gen.NSetCap{Name: "c", Body: []gen.Node{pr(&gen.ECall{Fn: "render", Args: []gen.Expr{str("rr")}})}}, pr(nm("c"))}
 	default: // exactly once, decided by a variable the first pass sets for the second
 		ts["once"] = tpl("once", tx("O("), &gen.NIf{Conds: []gen.Expr{&gen.EUn{Op: "not", X: nm("again")}}, Bodies: [][]gen.Node{{&gen.NInclude{Tpl: str("once"), With: hash1("again", &gen.EBool{V: true}), Only: only}}}, HasElse: true, Else: []gen.Node{tx("second")}}, tx(")"))
 		main = []gen.Node{&gen.NSet{Name: "again", X: &gen.EBool{V: false}}, &gen.NInclude{Tpl: str("once")}, tx("|"), &gen.NEmbed{Tpl: str("once")}}
@@ -377,7 +382,7 @@ func (p *c10) Run(i int) (res fw.Result) {
 	prog, sig, nt := p.build(i)
 	lib, _, ok := modelCase(&res, "c10:"+sig, prog, gen.Canon{}, false)
 	if !ok {
-		res.Fail("harness", "c10:oor:"+sig, "case left the model's region", prog.describe())
+		res.Fail("harness", "c10:oor:"+sig, "case left the model's region ("+lastLayout+")", prog.describe())
 		return
 	}
 	res.AddObs("probes", int64(strings.Count(lib.out, "[")))
